@@ -102,6 +102,9 @@ func (f *g2lFn) call(b *binds, e *ast.CallExpr) string {
 		}
 		return f.convert(b, tv.Type, e.Args[0], e)
 	}
+	if tf, ok := f.u.walkCalls[strings.Join(strings.Fields(show(e.Fun)), "")]; ok {
+		return f.walkCall(b, e, tf)
+	}
 	if f.u.limitedReaders && strings.Join(strings.Fields(show(e.Fun)), "") == "io.Copy" && len(e.Args) == 2 {
 		// io.Copy(w, lr) with lr an *io.LimitedReader: read what the limit allows (lr is updated), then write it to w
 		if id, ok := e.Args[1].(*ast.Ident); ok && f.leanType(f.typeOf(id), e) == "LimitedReader" {
@@ -240,8 +243,12 @@ func (f *g2lFn) call(b *binds, e *ast.CallExpr) string {
 				return "(" + base + " ++ " + f.expr(b, e.Args[1]) + ")"
 			}
 			parts := []string{}
+			var elemT types.Type
+			if sl, ok := st.Underlying().(*types.Slice); ok {
+				elemT = sl.Elem()
+			}
 			for _, a := range e.Args[1:] {
-				x := f.expr(b, a)
+				x := f.exprAs(b, a, elemT)
 				if isBytes {
 					x = "mkByte " + x
 				}
@@ -883,6 +890,16 @@ func (f *g2lFn) assignedOuter(nodes []ast.Node, before token.Pos) []*types.Var {
 			case *ast.IncDecStmt:
 				add(n.X)
 			case *ast.CallExpr:
+				if _, ok := f.u.walkCalls[strings.Join(strings.Fields(show(n.Fun)), "")]; ok && len(n.Args) == 2 {
+					if lit, ok := n.Args[1].(*ast.FuncLit); ok {
+						for _, v := range f.assignedOuter([]ast.Node{lit.Body}, lit.Pos()) {
+							if v.Pos() < before && !seen[v] {
+								seen[v] = true
+								out = append(out, v)
+							}
+						}
+					}
+				}
 				if f.worldVar != nil && f.isWorldCall(n) && f.worldVar.Pos() < before && !seen[f.worldVar] {
 					seen[f.worldVar] = true
 					out = append(out, f.worldVar)
@@ -1119,9 +1136,20 @@ func (f *g2lFn) assignOne(lines *[]string, lhs ast.Expr, term string, lt types.T
 			}
 			break
 		}
+		if id0, ok := cur.(*ast.Ident); ok {
+			// zerr.path = dir on an error object obtained by a type assertion: error values carry only their kind here
+			if t0 := f.typeOf(id0); t0 != nil && g2lImplementsError(t0) && !isErrorType(t0) {
+				return
+			}
+		}
 		base, ok := cur.(*ast.Ident)
 		if !ok {
-			f.bad(lhs, "field assignment on %s", show(cur))
+			// general case (x.list[i].field = v): rebuild the enclosing value and assign that
+			var b binds
+			outer := f.expr(&b, l.X)
+			*lines = append(*lines, b.lines...)
+			f.assignOne(lines, l.X, fmt.Sprintf("{ %s with %s := %s }", outer, leanIdent(l.Sel.Name), term), f.typeOf(l.X))
+			return
 		}
 		val := term
 		for i := len(chain) - 1; i >= 0; i-- {
@@ -1135,7 +1163,23 @@ func (f *g2lFn) assignOne(lines *[]string, lhs ast.Expr, term string, lt types.T
 	case *ast.IndexExpr:
 		base, ok := l.X.(*ast.Ident)
 		if !ok {
-			f.bad(lhs, "nested index assignment")
+			// general case (x.list[i] = v): the updated list is assigned to x.list
+			if _, isMap := f.typeOf(l.X).Underlying().(*types.Map); isMap {
+				f.bad(lhs, "nested map assignment")
+			}
+			var b binds
+			outer := f.expr(&b, l.X)
+			i := f.expr(&b, l.Index)
+			*lines = append(*lines, b.lines...)
+			f.pure = false
+			op := "setIdxL"
+			if isByteSlice(f.typeOf(l.X)) {
+				op = "setIdx"
+			}
+			t := f.fresh("t")
+			*lines = append(*lines, fmt.Sprintf("let %s ← %s %s %s %s", t, op, outer, i, term))
+			f.assignOne(lines, l.X, t, f.typeOf(l.X))
+			return
 		}
 		var b binds
 		i := f.expr(&b, l.Index)
@@ -1168,6 +1212,15 @@ func (f *g2lFn) simple(s ast.Stmt) []string {
 	case *ast.AssignStmt:
 		if s.Tok == token.DEFINE && len(s.Lhs) == 1 && len(s.Rhs) == 1 {
 			if lit, ok := s.Rhs[0].(*ast.FuncLit); ok {
+				if f.u.lambdaClosures && len(lit.Body.List) == 1 {
+					if _, isRet := lit.Body.List[0].(*ast.ReturnStmt); isRet {
+						var lb binds
+						v := f.expr(&lb, lit)
+						if len(lb.lines) == 0 {
+							return []string{fmt.Sprintf("let %s := %s", f.name(s.Lhs[0].(*ast.Ident)), v)}
+						}
+					}
+				}
 				f.defineClosure(s.Lhs[0].(*ast.Ident), lit)
 				return lines
 			}
@@ -1505,6 +1558,11 @@ func (f *g2lFn) isPanicCall(c *ast.CallExpr) bool {
 }
 
 func (f *g2lFn) defineClosure(name *ast.Ident, lit *ast.FuncLit) {
+	f.defineClosureAs(name.Name, f.p.info.Defs[name], lit)
+}
+
+func (f *g2lFn) defineClosureAs(nameStr string, key types.Object, lit *ast.FuncLit) *g2lClosure {
+	name := &ast.Ident{Name: nameStr}
 	if f.closures == nil {
 		f.closures = map[types.Object]*g2lClosure{}
 	}
@@ -1568,7 +1626,42 @@ func (f *g2lFn) defineClosure(name *ast.Ident, lit *ast.FuncLit) {
 	fmt.Fprintf(def, "/-- closure `%s` of `%s` (%s) -/\n", name.Name, f.goName, shortPos(f.pos(lit)))
 	fmt.Fprintf(def, "def %s \x00ABSP\x00(fuel : Nat) %s : M %s := do\n%s\n", cl.lean, strings.Join(params, " "), full, indent(strings.Join(body, "\n"), 2))
 	f.loops = append(f.loops, def.String())
-	f.closures[f.p.info.Defs[name]] = cl
+	f.closures[key] = cl
+	return cl
+}
+
+// walkCall: err := filepath.Walk(root, func(path string, info os.FileInfo, err error) error {…}): the closure is hoisted
+// (the captured variables it assigns become the walk's state) and driven by GoRt.walkTree over the tree that the abstract
+// parameter configured in walkCalls yields for the root.
+func (f *g2lFn) walkCall(b *binds, e *ast.CallExpr, treeFn string) string {
+	lit, ok := e.Args[1].(*ast.FuncLit)
+	if !ok || len(e.Args) != 2 {
+		f.bad(e, "filepath.Walk needs a function literal")
+	}
+	f.nloop++
+	key := types.NewVar(lit.Pos(), f.p.pkg, fmt.Sprintf("walkFn%d", f.nloop), types.Typ[types.Invalid])
+	cl := f.defineClosureAs(fmt.Sprintf("walkFn%d", f.nloop), key, lit)
+	f.useAbs(treeFn)
+	root := f.expr(b, e.Args[0])
+	stPat, stVal := "_", "()"
+	if len(cl.modified) > 0 {
+		stPat, stVal = tuple(cl.modified), tuple(cl.modified)
+	}
+	callArgs := append(append(append([]string{}, cl.captured...), "wp", "wi", "we"), cl.modified...)
+	call := "(" + cl.lean + " \x00ABS\x00fuel " + strings.Join(callArgs, " ") + ")"
+	fn := ""
+	if len(cl.modified) > 0 {
+		fn = fmt.Sprintf("(fun wp wi we %s => %s)", stPat, call)
+	} else {
+		fn = fmt.Sprintf("(fun wp wi we _ => do let r ← %s; pure (r, ()))", call)
+	}
+	t := f.bindM(b, fmt.Sprintf("walkTree %s fuel %s (%s %s) %s", fn, root, treeFn, root, stVal))
+	r := f.fresh("wk")
+	b.add(fmt.Sprintf("let (%s, %s) := %s", r, stPat, t))
+	for _, m := range cl.modified {
+		b.noteRebound(m)
+	}
+	return r
 }
 
 // typeSwitch: `switch x := e.(type) { case *T: … default: … }` over a configured sum type becomes a match
